@@ -35,6 +35,28 @@ CLAIMED = {
              "validated by a bounded differential test); structpb property values (nesting, numeric extremes) are library behaviour "
              "and not decided; the label-vs-'label' collision in the index document is residue.",
         technique="contract-based deductive verification: code lemmas + function contracts, VCs over go/ssa, SMT (z3/cvc5)"),
+    "C05": dict(
+        level="proof",
+        text="Mediation is proved as the precondition of the handler parameter of both gRPC interceptors: for every exposed method "
+             "(table extracted from the generated service descriptors on every run), every request, user and policy, the handler is "
+             "called only after Authenticate.Validate succeeded and Access.Enforce succeeded for that user, the graph the request names "
+             "and the method's operation class, otherwise an Unauthenticated/PermissionDenied status is returned and the handler is not "
+             "called; with permissive collaborators every exposed unary method reaches its handler; BulkWriteFilter.RecvMsg delivers only "
+             "permitted elements; CasbinAccess.Enforce decides exactly as casbin does. Five server-streaming methods are recorded known findings.",
+        ref="§5 C05",
+        note=TRUST + " Assumed: casbin policy evaluation, grpc interceptor chaining and the IsServerStream/IsClientStream flags, "
+             "metadata extraction; the direct-client shims and Serve wiring (G1, W1) are residue not yet under contract.",
+        technique="contract-based deductive verification: handler-parameter preconditions, VCs over go/ssa, SMT (z3/cvc5)"),
+    "C06": dict(
+        level="other",
+        text="Partial: panic-freedom (nil dereference, unchecked type assertion, index/slice bounds, nil-map write, interface comparison of "
+             "uncomparable values, close/send on closed channel) is proved for the index-start optimizer, the condition matcher, traveler "
+             "copy-on-step operations and result conversion under the wire input model; the step processors, compiler and server handlers "
+             "are covered as their contracts are added.",
+        ref="§5 C06",
+        note=TRUST + " Input model wire(x) (payload of a populated oneof wrapper is non-nil) is assumed as axioms in the contracts; panics inside "
+             "third-party libraries, out-of-memory and deadlock are not decided.",
+        technique="contract-based deductive verification: auto-generated safety obligations at every panicking instruction, SMT (z3/cvc5)"),
     "C11": dict(
         level="other",
         text="Partial: JobMatch is proved to accept exactly the stored jobs of two or more steps whose checksums are a prefix of "
